@@ -269,6 +269,15 @@ func (g *G) scEval() []Node {
 		fn := g.fresh("ef")
 		body = append(body, ES(CallN("eval", &EvalSrc{Prog: &Program{Body: []Node{FnD(fn, nil, Ret(Id("loc")))}}})), Log(S("eval-fn-decl"), CallN(fn)))
 	}
+	if g.R.Bool() {
+		// a member call of eval is an indirect eval (15.1.2.1.1), whatever the member is called on;
+		// through a with statement the reference has an environment record as base: direct
+		oe := g.fresh("oe")
+		body = append(body, V(oe, ObjL(P("eval", Id("eval")))),
+			Log(S("member-eval-is-indirect"), Meth(Id(oe), "eval", &EvalSrc{Prog: &Program{Body: []Node{ES(Un("typeof", Id("loc")))}}}),
+				Meth(Id("G"), "eval", &EvalSrc{Prog: &Program{Body: []Node{ES(Un("typeof", Id("loc")))}}}),
+				CallE(Idx(Id(oe), S("eval")), &EvalSrc{Prog: &Program{Body: []Node{ES(Bin("===", &This{}, Id("G")))}}})))
+	}
 	return []Node{FnD(f, nil, body...), ES(CallN(f)), Log(S("global-after"), Un("typeof", Id(x)), Un("typeof", Id(y)), Un("delete", Id(y)), Un("typeof", Id(y)))}
 }
 
@@ -483,6 +492,12 @@ func (g *G) scEvalOrder() []Node {
 		{Log(S("call-undefined-order")), TryC(Blk(ES(CallE(Dot(Id(o), "nope"), CallN("v", S("arg"), N(1))))), "e", Blk(Log(S("err"), Dot(Id("e"), "name"))), nil)},
 		{Log(S("typeof-undeclared"), Un("typeof", Id("nope"+x))), TryC(Blk(ES(Id("nope"+x))), "e", Blk(Log(S("err"), Dot(Id("e"), "name"))), nil)},
 		{Log(S("comma"), Seq(CallN("v", S("c1"), N(1)), CallN("v", S("c2"), N(2))))},
+		// GetValue of the right operand comes before any conversion of the left one (11.5-11.10)
+		{Log(S("read-then-convert"), Bin([]string{"+", "-", "*", "<", "&", "=="}[g.R.Intn(6)], ObjL(P("valueOf", FnE("", nil, Log(S("conv-l")), ES(Asg(Id(x), N(50))), Ret(N(1))))), Id(x)), Id(x)),
+			Log(S("read-then-convert2"), Bin([]string{"+", "-", "%", ">=", "|"}[g.R.Intn(5)], ObjL(P("valueOf", FnE("", nil, Log(S("conv-l2")), Ret(N(1))))), CallN("v", S("r"), N(2))))},
+		// CheckObjectCoercible(base) comes before ToString(key) (11.2.1)
+		{TryC(Blk(ES(Idx(&Null{}, ObjL(P("toString", FnE("", nil, Log(S("key-converted")), Ret(S("k")))))))), "e", Blk(Log(S("null-member"), Dot(Id("e"), "name"))), nil),
+			TryC(Blk(ES(Asg(Idx(Undef(), ObjL(P("toString", FnE("", nil, Log(S("key-converted2")), Thr(NewE(Id("RangeError"), S("k"))))))), N(1)))), "e", Blk(Log(S("undef-member"), Dot(Id("e"), "name"))), nil)},
 		{Log(S("delete-order"), Un("delete", Idx(Id(o), CallN("v", S("dk"), S("b")))), Bin("in", S("b"), Id(o)))},
 	}
 	perm := g.R.Perm(len(tests))
